@@ -126,20 +126,20 @@ Proof.
     - destruct r as [[]|[]]; cbn [finish]; try apply times_le_nil;
         repeat (first [apply times_le_send; [lia|] | apply times_le_nil | apply times_le_other; [exact Logic.I|]]).
     - intros acc. cbn [last_time]. lia. }
-  unfold transfer.
+  unfold transfer, transfer_r.
   destruct (n_oack (t_neg c)) as [|oa1 oar] eqn:Eoa.
-  - destruct (send_blocks (t_cfg c) 0%N (spec_blocks c) 0 (t_events c)) as [[[r n] e] l] eqn:E.
+  - destruct (send_blocks (t_cfg c) 0%N (spec_blocks c) 0 (t_events c)) as [[[r n] e] l] eqn:E. cbn [snd].
     destruct (send_blocks_times (t_cfg c) tm_pos _ _ _ _ _ _ _ _ E) as [A1 A2].
     cbn [wrap t_cfg] in A1. rewrite Enb in A1. cbn [fst retries t_cfg] in A1. fold U in A1.
     cbn [fst]. pose proof (times_le_app l _ n A2 (Fin r n) 0). lia.
   - destruct (send_tries (t_cfg c) (S (retries (t_cfg c))) (POack (oa1 :: oar)) 0%N 0 (t_events c))
-      as [[[o n1] e1] l1] eqn:E1.
+      as [[[o n1] e1] l1] eqn:E1. cbn [snd].
     destruct (send_tries_times (t_cfg c) tm_pos _ _ _ _ _ _ _ _ _ E1) as [A1 A2].
     cbn [retries t_cfg] in A1. fold U in A1. cbn [fst length].
     assert (G : forall oo, times_le (l1 ++ finish (inl oo) n1 ++ [TCloseFile; TCloseSock]) n1).
     { intros oo. apply times_le_app; [exact A2|apply Fin]. }
-    destruct o; try (match goal with |- context [finish (inl ?x)] => pose proof (G x 0) end; nia).
-    destruct (send_blocks (t_cfg c) 0%N (spec_blocks c) n1 e1) as [[[r n] e] l] eqn:E.
+    destruct o; cbn [snd]; try (match goal with |- context [finish (inl ?x)] => pose proof (G x 0) end; nia).
+    destruct (send_blocks (t_cfg c) 0%N (spec_blocks c) n1 e1) as [[[r n] e] l] eqn:E. cbn [snd].
     destruct (send_blocks_times (t_cfg c) tm_pos _ _ _ _ _ _ _ _ E) as [B1 B2].
     cbn [wrap t_cfg] in B1. rewrite Enb in B1. cbn [fst retries t_cfg] in B1. fold U in B1.
     assert (T : times_le ((l1 ++ l) ++ finish r n ++ [TCloseFile; TCloseSock]) n).
